@@ -965,6 +965,17 @@ def _check_conv(case, ctx):
     ctx.close("conv_EbN0_of_SNR",
               absd(cv.SNR_dB_to_EbN0_dB(cv.EbN0_dB_to_SNR_dB(db, bits), bits),
                    dbv), 1e-13, "dB=%r bits=%d" % (case["db"], bits), tags)
+    if form == "array":
+        # "mutually inverse" is judged by the user against the array he
+        # passed in: it must still hold his values after the conversions
+        if not (np.array_equal(np.asarray(lin, dtype=float), linv) and
+                np.array_equal(np.asarray(db, dtype=float), dbv)):
+            raise Violation("conv_modified_its_argument", "a conversion "
+                            "changed the array handed to it: %r -> %r, "
+                            "%r -> %r" % (case["lin"],
+                                          np.asarray(lin).tolist(),
+                                          case["db"], np.asarray(db).tolist()),
+                            tags)
 
 
 # ----------------------------------------------------------------------------
